@@ -520,9 +520,14 @@ pub struct Hist {
     pub via_reader: bool,
     pub r: IoPlan,
     pub sub: u8,
+    /// 0: the document is the serialized hash.  > 0: a *foreign* document — another type carrying the same payload
+    /// (array of numbers, text string in a compact format, integer, bool, null, option, tuple, map, ...) that is then
+    /// deserialized as a hash: only "judged by the matching parser / never a panic" applies.
+    pub foreign: u8,
 }
 
 pub struct C16;
+pub const FOREIGN_KINDS: u8 = 12;
 const FMT: [&str; 3] = ["json", "cbor", "postcard"];
 
 fn expected_doc<K: Kind>(h: &K::H, fmt: u8) -> Vec<u8> {
@@ -570,11 +575,33 @@ where
     let hash_s = render_h(&hash);
     // ---- store through the faulty writer (real format crate, real Serialize impl) ----
     let mut w = FaultyWriter { plan: &h.w, out: Vec::new(), calls: 0, fired_eintr: 0, fired_hard: false, short: 0 };
-    let ser: Result<(), String> = match h.fmt {
-        0 => serde_json::to_writer(&mut w, &hash).map_err(|e| e.to_string()),
-        1 => ciborium::into_writer(&hash, &mut w).map_err(|e| e.to_string()),
-        _ => postcard::to_io(&hash, &mut w).map(|_| ()).map_err(|e| e.to_string()),
+    fn put<T: Serialize, W: Write>(fmt: u8, w: &mut W, v: &T) -> Result<(), String> {
+        match fmt {
+            0 => serde_json::to_writer(w, v).map_err(|e| e.to_string()),
+            1 => ciborium::into_writer(v, w).map_err(|e| e.to_string()),
+            _ => postcard::to_io(v, w).map(|_| ()).map_err(|e| e.to_string()),
+        }
+    }
+    let mut bin_form = [0u8; 80];
+    let nbin = hash.store_into_bytes(&mut bin_form).expect("fits");
+    let ser: Result<(), String> = match h.foreign {
+        0 => put(h.fmt, &mut w, &hash),
+        1 => put(h.fmt, &mut w, &bin_form[..nbin].to_vec()),            // sequence of numbers (binary form)
+        2 => put(h.fmt, &mut w, &hash_s.as_bytes().to_vec()),             // sequence of numbers (text form)
+        3 => put(h.fmt, &mut w, &hash_s),                                 // a text string (also in compact formats)
+        4 => put(h.fmt, &mut w, &(nbin as u64)),
+        5 => put(h.fmt, &mut w, &true),
+        6 => put(h.fmt, &mut w, &()),
+        7 => put(h.fmt, &mut w, &Some(hash)),
+        8 => put(h.fmt, &mut w, &(hash,)),
+        9 => put(h.fmt, &mut w, &std::collections::BTreeMap::from([("a".to_string(), hash_s.clone())])),
+        10 => put(h.fmt, &mut w, &hash_s[2..].to_string()),               // prefix-less text
+        11 => put(h.fmt, &mut w, &hash_s.to_ascii_lowercase()),
+        _ => put(h.fmt, &mut w, &vec![hash, hash]),
     };
+    if h.foreign != 0 {
+        st.hit("fault.foreign_document");
+    }
     st.add("fault.write_eintr", w.fired_eintr);
     st.add("fault.short_write", w.short);
     if w.fired_hard {
@@ -591,7 +618,7 @@ where
     }
     let mut doc = w.out;
     let want = expected_doc::<K>(&hash, h.fmt);
-    if doc != want {
+    if h.foreign == 0 && doc != want {
         return mk("ser-not-canonical", format!("{} document is {} but the canonical encoding of {hash_s} is {}", FMT[h.fmt as usize], hex(&doc), hex(&want)));
     }
     // ---- the medium ----
@@ -609,7 +636,7 @@ where
             MFault::Lower(_) => "fault.byte_lowercased",
         });
     }
-    if damaged && doc.len() == pristine.len() && h.fmt != 0 {
+    if damaged && doc.len() == pristine.len() && h.fmt != 0 && h.foreign == 0 {
         // which field did the damage land in (binary formats: [envelope][cksum][len][q][body])
         let env = pristine.len() - <K::H as FuzzyHashType>::SIZE_IN_BYTES;
         if let Some(i) = (0..doc.len()).find(|&i| doc[i] != pristine[i]) {
@@ -678,6 +705,9 @@ where
         st.hit("probe.format_crate_failed_on_read_eintr");
     } else if !damaged && !rd.fired_hard {
         // storage and transport were honest: the round trip must be lossless
+        if h.foreign != 0 {
+            return None; // a foreign document: only the event-based judgement above applies
+        }
         match &outer {
             Ok(o) if *o == hash_s => {}
             Ok(o) => return mk("roundtrip-lossy", format!("stored {hash_s}, read back {o}")),
@@ -698,7 +728,7 @@ impl Scenario for C16 {
     }
     fn rule(&self) -> &'static str {
         "history = (variant, format, hash source, writer plan, medium faults, read path, reader plan); distinct = distinct history digests; \
-         non-trivial = the document was stored and read back and, outside the fault-free sub-batch, at least one injected fault fired"
+         non-trivial = the document was stored and read back and, outside the fault-free sub-batch, at least one injected fault fired (a foreign, wrong-typed document counts as a fault)"
     }
     fn generate(&self, r: &mut Rng, index: u64) -> Hist {
         // sub 0: fault-free; 1: I/O faults only (short, EINTR); 2: medium damage; 3: hard I/O errors; 4: swarm
@@ -722,7 +752,9 @@ impl Scenario for C16 {
                     8 => {
                         if r.chance(1, 2) {
                             let mut g = vec![0u8; r.range(1, 4) as usize];
-                            r.fill(&mut g);
+                            if r.chance(2, 3) {
+                                r.fill(&mut g); // else: zero bytes appended
+                            }
                             MFault::Append(g)
                         } else {
                             // positions biased to the edges of the payload (inside the JSON quotes / right after the envelope)
@@ -740,7 +772,8 @@ impl Scenario for C16 {
                 });
             }
         }
-        Hist { variant, fmt, src, w, medium, via_reader: r.chance(1, 2), r: rp, sub }
+        let foreign = if r.chance(1, 6) { r.range(1, FOREIGN_KINDS as u64) as u8 } else { 0 };
+        Hist { variant, fmt, src, w, medium, via_reader: r.chance(1, 2), r: rp, sub, foreign }
     }
     fn execute(&self, h: &Hist, st: &mut Stats) -> Outcome {
         let mut fnv = Fnv::new();
@@ -752,7 +785,7 @@ impl Scenario for C16 {
             Err(p) => Some(Violation { class: format!("panic:{}", panic_class(&p)), detail: format!("panic while (de)serializing: {p}") }),
         };
         let faulted = !h.medium.is_empty() || !h.w.eintr.is_empty() || !h.r.eintr.is_empty() || h.w.hard.is_some() || h.r.hard.is_some() || !h.w.chunks.is_empty() || !h.r.chunks.is_empty();
-        Outcome { violation, digest: fnv.finish(), nontrivial: h.sub == 0 || faulted, states }
+        Outcome { violation, digest: fnv.finish(), nontrivial: h.sub == 0 || faulted || h.foreign != 0, states }
     }
     fn shrink(&self, h: &Hist) -> Vec<Hist> {
         let mut out = Vec::new();
@@ -814,7 +847,8 @@ impl Scenario for C16 {
     fn to_json(&self, h: &Hist) -> Value {
         json!({"variant": VARIANT_NAMES[h.variant as usize], "variant_id": h.variant, "format": FMT[h.fmt as usize], "fmt": h.fmt,
                "hash": src_json(&h.src), "writer": plan_json(&h.w), "medium": h.medium.iter().map(mf_json).collect::<Vec<_>>(),
-               "via_reader": h.via_reader, "reader": plan_json(&h.r), "sub": h.sub})
+               "via_reader": h.via_reader, "reader": plan_json(&h.r), "sub": h.sub, "foreign": h.foreign,
+               "foreign_legend": "0 hash itself, 1 seq(binary), 2 seq(text), 3 text string, 4 u64, 5 bool, 6 unit, 7 Some(hash), 8 (hash,), 9 map, 10 prefix-less text, 11 lower-case text, 12 [hash, hash]"})
     }
     fn from_json(&self, v: &Value) -> Result<Hist, String> {
         Ok(Hist {
@@ -826,6 +860,7 @@ impl Scenario for C16 {
             via_reader: v["via_reader"].as_bool().ok_or("via_reader")?,
             r: plan_from(&v["reader"])?,
             sub: v["sub"].as_u64().unwrap_or(4) as u8,
+            foreign: v["foreign"].as_u64().unwrap_or(0) as u8,
         })
     }
 }
